@@ -167,8 +167,6 @@ def claims(tier):
     cl = []
     cl.append(Claim("exact", c09_exact, pre=[lambda bi, dots, ti: 0 <= bi < 10 and 0 <= dots <= 4 and 0 <= ti < 4], timeout=600, bounds="10 base values x (0-4 dots | plain, 3:2, 5:4, 7:4) (realised)"))
     for bi, base in enumerate(BASES):
-        if q and bi % 3 != 1:
-            continue
         for dots, rat in ((0, (1, 1)), (1, (1, 1)), (0, (3, 2)), (0, (5, 4)), (0, (7, 4))):
             lo, hi = _window(base, dots, rat)
             cl.append(Claim("window[base=%s,dots=%d,%d:%d]" % (base, dots, rat[0], rat[1]), c09_window, params={"base": base, "dots": dots, "rat": rat, "lo": lo, "hi": hi}, group="c09_window", pre=[lambda v: P["lo"] <= v <= P["hi"]], timeout=600 if q else 1800, per_path=120, bounds="v: every double in [%r, %r] (value x 0.99 .. x 1.01), Float64" % (lo, hi)))
